@@ -110,6 +110,8 @@ def run_multi_case(rng, res: CaseResult):
             st = {'op': 'force', 'chain': 'mc', 'tasks': targets}
             if rng.random() < 0.3:
                 st['delete_data'] = True
+            if rng.random() < 0.5:
+                st['container'] = rng.choice(['tuple', 'set', 'generator', 'map', 'dict'])
             steps.append(st)
             for j in range(k):
                 steps.append({'op': 'snapshot', 'chain': 'mc', 'member': names[j], 'light': True, 'mi': j})
